@@ -1,3 +1,4 @@
+import os
 subs=[("idle","stepIdle",True),("begin","stepBegin",False),("commit","stepCommit",False),("abort","stepAbort",False),("after","stepAfter",True),("use","stepUse",False),("sess","stepSess",False),("close","stepClose",False),("exp","stepExp",False)]
 pcname={"idle":".idle","after":".after"}
 head='''/-
@@ -87,21 +88,29 @@ for name,fn,haspc in subs:
   conc_split hs
   all_goals (
     refine ⟨fun rec hrec => ?_, fun p hp => ?_, fun b => ?_, fun t ht => ?_⟩
-    · have := l1; have := r3
-      clear r1 r2 r3 l1
-      (try log2_simp_at hrec); grind
-    · clear r0 r2 r3
-      (try log2_simp_at hp); grind
-    · have := r2 b
+    · first
+      | exact r0 rec hrec
+      | (have := l1; have := r3
+         clear r1 r2 r3 l1
+         (try log2_simp_at hrec); grind)
+    · first
+      | exact r1 p hp
+      | (clear r0 r2 r3
+         (try log2_simp_at hp); grind)
+    · have hr2b := r2 b
       clear r0 r2 r3
       by_cases hba : b = a
       · subst hba; (try log2_simp); grind
       · have hab : ¬ a = b := fun h => hba h.symm
         try simp only [State.put, State.putS, State.finish, State.write, upd_apply, if_neg hba, if_neg hab]
-        (try log2_simp); grind
-    · have := r3 t
-      clear r0 r1 r2 r3
-      (try log2_simp_at ht); grind)'''
+        first
+        | exact hr2b
+        | ((try log2_simp); grind)
+    · first
+      | exact r3 t ht
+      | (have := r3 t
+         clear r0 r1 r2 r3
+         (try log2_simp_at ht); grind))'''
     out+=thm("rinv",name,fn,haspc,"(bnd : Bnd s) (lv : Linv s) (g : Rinv s)","Rinv s'",body)
 for name,fn,haspc in subs:
     body=f'''  obtain ⟨p1, p2, p3⟩ := g
@@ -119,22 +128,28 @@ for name,fn,haspc in subs:
   conc_split hs
   all_goals (
     refine ⟨fun r hr => ?_, fun b t => ?_, fun b => ?_⟩
-    · clear p2 p3 b2
-      (try log2_simp_at hr); grind [Pre.app, Pre.len, Pre.refl, Pre.self_app]
-    · have := p2 b t; have := b2 b t
+    · first
+      | exact p1 r hr
+      | (clear p2 p3 b2
+         (try log2_simp_at hr); grind [Pre.app, Pre.len, Pre.refl, Pre.self_app])
+    · have hp2b := p2 b t; have := b2 b t
       clear p1 p2 p3 b2
       by_cases hba : b = a
       · subst hba; (try log2_simp); grind [Pre.app, Pre.len, Pre.refl, Pre.self_app]
       · have hab : ¬ a = b := fun h => hba h.symm
         try simp only [State.put, State.putS, State.finish, State.write, upd_apply, if_neg hba, if_neg hab]
-        (try log2_simp); grind [Pre.app, Pre.len, Pre.refl, Pre.self_app]
-    · have := p3 b
+        first
+        | exact hp2b
+        | ((try log2_simp); grind [Pre.app, Pre.len, Pre.refl, Pre.self_app])
+    · have hp3b := p3 b
       clear p1 p2 p3 b2
       by_cases hba : b = a
       · subst hba; (try log2_simp); grind
       · have hab : ¬ a = b := fun h => hba h.symm
         try simp only [State.put, State.putS, State.finish, State.write, upd_apply, if_neg hba, if_neg hab]
-        (try log2_simp); grind)'''
+        first
+        | exact hp3b
+        | ((try log2_simp); grind))'''
     out+=thm("pinv",name,fn,haspc,"(inv1 : Inv1 s) (bnd : Bnd s) (lv : Linv s) (rv : Rinv s) (g : Pinv s)","Pinv s'",body)
 for name,fn,haspc in subs:
     body=f'''  obtain ⟨b1, b2, b3, b4⟩ := bnd
@@ -144,14 +159,16 @@ for name,fn,haspc in subs:
   conc_split hs
   all_goals (
     intro h hh
-    (try log2_simp_at hh)
     first
-    | (have := g h hh; grind [Pre.app, Pre.refl])
-    | (rcases hh with hh | hh
-       · have := g h hh; grind [Pre.app, Pre.refl]
-       · subst hh
-         simp only [List.append_assoc, if_true]
-         grind [Pre.app, Pre.refl]))'''
+    | exact g h hh
+    | ((try log2_simp_at hh)
+       first
+       | (have := g h hh; grind [Pre.app, Pre.refl])
+       | (rcases hh with hh | hh
+          · have := g h hh; grind [Pre.app, Pre.refl]
+          · subst hh
+            simp only [List.append_assoc, if_true]
+            grind [Pre.app, Pre.refl])))'''
     out+=thm("hinv",name,fn,haspc,"(bnd : Bnd s) (g : Hinv s)","Hinv s'",body)
 out+="\nend Lungo.Conc\n"
-open('/root/wt/a4/lean/Lungo/Proofs/ConcLog2.lean','w').write(out)
+open(os.path.join(os.path.dirname(os.path.abspath(__file__)),'..','Lungo','Proofs')+'/ConcLog2.lean','w').write(out)
